@@ -106,4 +106,63 @@ def forallMaxL (P : Path → String → List Expr → Prop) : Path → Nat → L
 end
 
 
+/-- Value of a node's indicator under an assignment. -/
+def indVal (σ : Assign) (r : PR) : Int := resolveTV σ r.ind
+
+
+mutual
+/-- No `LessThan` of the tree is decided at compile time (the class C20-F2). -/
+def noStaticLt (ctx : Ctx) (path : Path) : Expr → Bool
+  | .choose .. => true
+  | .alloc .. => true
+  | .obj _ cs => noStaticLtL ctx path 0 cs
+  | .min _ cs => noStaticLtL ctx path 0 cs
+  | .max _ cs => noStaticLtL ctx path 0 cs
+  | .lt _ a b =>
+    noStaticLt ctx (0 :: path) a && noStaticLt ctx (1 :: path) b &&
+    !((compileNode ctx (0 :: path) a).pr.util && (compileNode ctx (1 :: path) b).pr.util &&
+      isConst (compileNode ctx (0 :: path) a).pr.stop && isConst (compileNode ctx (1 :: path) b).pr.start)
+  | .scale _ _ _ c => noStaticLt ctx (0 :: path) c
+def noStaticLtL (ctx : Ctx) (path : Path) (i : Nat) : List Expr → Bool
+  | [] => true
+  | e :: es => noStaticLt ctx (i :: path) e && noStaticLtL ctx path (i + 1) es
+end
+
+
+mutual
+/-- `P path node` holds at every node of the tree. -/
+def forallNodes (P : Path → Expr → Prop) : Path → Expr → Prop
+  | path, .choose a b c d e f g => P path (.choose a b c d e f g)
+  | path, .alloc a b c d => P path (.alloc a b c d)
+  | path, .obj n cs => P path (.obj n cs) ∧ forallNodesL P path 0 cs
+  | path, .min n cs => P path (.min n cs) ∧ forallNodesL P path 0 cs
+  | path, .max n cs => P path (.max n cs) ∧ forallNodesL P path 0 cs
+  | path, .lt n a b => P path (.lt n a b) ∧ forallNodes P (0 :: path) a ∧ forallNodes P (1 :: path) b
+  | path, .scale n f d c => P path (.scale n f d c) ∧ forallNodes P (0 :: path) c
+def forallNodesL (P : Path → Expr → Prop) : Path → Nat → List Expr → Prop
+  | _, _, [] => True
+  | path, i, e :: es => forallNodes P (i :: path) e ∧ forallNodesL P path (i + 1) es
+end
+
+/-- What the property says about one node of the tree under an assignment:
+* a node without utility, and a node whose indicator is 0, reports no placement;
+* `Min`: if it reports a placement, every child provides utility and has indicator 1;
+* `Max`: it reports at most one placement;
+* `LessThan` (both children with utility): the first child's end is no later than the second
+  child's start, and if it reports a placement both children have indicator 1. -/
+def nodeClause (ctx : Ctx) (σ : Assign) (path : Path) (e : Expr) : Prop :=
+  (((compileNode ctx path e).pr.util = false ∨ indVal σ (compileNode ctx path e).pr = 0) →
+    (populateNode ctx σ path e).placements = []) ∧
+  (match e with
+   | .min _ cs => (populateNode ctx σ path e).placements ≠ [] →
+      ∀ x ∈ compileList ctx path 0 cs, x.2.pr.util = true ∧ indVal σ x.2.pr = 1
+   | .max _ _ => (populateNode ctx σ path e).placements.length ≤ 1
+   | .lt _ a b =>
+      (compileNode ctx (0 :: path) a).pr.util = true → (compileNode ctx (1 :: path) b).pr.util = true →
+      resolveTV σ (compileNode ctx (0 :: path) a).pr.stop ≤ resolveTV σ (compileNode ctx (1 :: path) b).pr.start ∧
+      ((populateNode ctx σ path e).placements ≠ [] →
+        indVal σ (compileNode ctx (0 :: path) a).pr = 1 ∧ indVal σ (compileNode ctx (1 :: path) b).pr = 1)
+   | _ => True)
+
+
 end ErdosVerif.Strl
